@@ -116,6 +116,7 @@ func c15Gen(r *rng, n int, w *bufio.Writer) {
 			panic(err)
 		}
 		engine := urlfilter.NewCosmeticEngine(s)
+		full := urlfilter.NewEngine(s)
 		scan := s.NewRuleStorageScanner()
 		var items []string
 		for scan.Scan() {
@@ -144,8 +145,23 @@ func c15Gen(r *rng, n int, w *bufio.Writer) {
 			}
 			for flags := 0; flags < 8 && i < n; flags, i = flags+1, i+1 {
 				css, js, gen := flags&1 != 0, flags&2 != 0, flags&4 != 0
+				viaEngine := r.chance(1, 2)
 				ans := guardStr(func() string {
 					res := engine.Match(host, css, js, gen)
+					if viaEngine {
+						// the same question through Engine.GetCosmeticResult, which decodes the three flags from the option
+						var opt rules.CosmeticOption
+						if css {
+							opt |= rules.CosmeticOptionCSS
+						}
+						if js {
+							opt |= rules.CosmeticOptionJS
+						}
+						if gen {
+							opt |= rules.CosmeticOptionGenericCSS
+						}
+						res = full.GetCosmeticResult(host, opt)
+					}
 					extra := len(res.CSS.Generic) + len(res.CSS.Specific) + len(res.CSS.GenericExtCSS) + len(res.CSS.SpecificExtCSS) +
 						len(res.JS.Generic) + len(res.JS.Specific)
 					if extra != 0 {
@@ -161,7 +177,7 @@ func c15Gen(r *rng, n int, w *bufio.Writer) {
 					return a
 				})
 				fmt.Fprintf(w, "c15.cosm %s %s %s %s %s %s = %s ## host=%q css=%v js=%v generic=%v lists: %s\n",
-					rulesW, wb(host), wbool(css), wbool(js), wbool(gen), wpsl(host), ans, host, css, js, gen, strings.Join(note, " ‖ "))
+					rulesW, wb(host), wbool(css), wbool(js), wbool(gen), wpsl(host), ans, host, css, js, gen, map[bool]string{true: "via Engine.GetCosmeticResult; ", false: ""}[viaEngine]+strings.Join(note, " ‖ "))
 			}
 		}
 	}
